@@ -24,12 +24,15 @@ def main():
         sh('git checkout -- . && git clean -fdq tests src', cwd=WT)
         demo = 'tests/seeded_demo.rs'
         shutil.copy(os.path.join(d, 'demo.rs'), os.path.join(WT, demo))
-        rc0, out0 = sh(['cargo', 'test', '--offline', '--test', 'seeded_demo'], cwd=WT)
+        head = ''.join(open(os.path.join(d, 'demo.rs')).readlines()[:25])
+        fm = re.search(r'--features[ =]([\w,]+)', head)
+        feat = ['--features', fm.group(1)] if fm else []
+        rc0, out0 = sh(['cargo', 'test', '--offline', '--test', 'seeded_demo'] + feat, cwd=WT)
         meta['demo_passes_without_change'] = rc0 == 0
         rc, out = sh(['git', 'apply', os.path.join(d, 'patch.diff')], cwd=WT)
         meta['patch_applies'] = rc == 0
         if rc == 0:
-            rc1, out1 = sh(['cargo', 'test', '--offline', '--test', 'seeded_demo'], cwd=WT)
+            rc1, out1 = sh(['cargo', 'test', '--offline', '--test', 'seeded_demo'] + feat, cwd=WT)
             meta['demo_fails_with_change'] = rc1 != 0
             meta['demo_failure_excerpt'] = '\n'.join([l for l in out1.split('\n') if 'panicked' in l or 'FAILED' in l or 'assert' in l][:6])
             os.remove(os.path.join(WT, demo))
